@@ -162,9 +162,7 @@ def fixed_requests(tmp):
         reqs.append(({'kind': 'assist', 'src': cyc + tail, 'pos': list(pos), 'filename': cfn, 'roots': [suppview.FIXTURES]}, True, 3))
     reqs.append(({'kind': 'location', 'src': cyc + 'cyc_a.cb', 'pos': [5, 8], 'filename': cfn, 'roots': [suppview.FIXTURES]}, True, 2))
     reqs.append(({'kind': 'lint', 'src': cyc + 'print(ca, cb, e_own)\n', 'filename': cfn, 'roots': [suppview.FIXTURES]}, True, 3))
-    for name, src in c04.MODS.items():
-        with open(os.path.join(tmp, name + '.py'), 'w') as f:
-            f.write(src)
+    c04.write_mods(tmp)
     for name, src in c04.MODS.items():
         path = os.path.join(tmp, name + '.py')
         for pos in c04.HPOS[name][::3]:
